@@ -370,8 +370,10 @@ class Ctx:
             "coverage": cov, "assumptions": self.notes, "wall_s": round(time.time() - self.t0, 2),
             "violations": violations,
         }
-        os.makedirs(os.path.join(VERIF, "evidence"), exist_ok=True)
-        with open(os.path.join(VERIF, "evidence", f"{self.prop}.json"), "w") as f:
+        # VERIF_EVIDENCE_DIR: mutation runs against a scratch copy must not overwrite the real evidence
+        evdir = os.environ.get("VERIF_EVIDENCE_DIR") or os.path.join(VERIF, "evidence")
+        os.makedirs(evdir, exist_ok=True)
+        with open(os.path.join(evdir, f"{self.prop}.json"), "w") as f:
             json.dump(ev, f, indent=1, default=str)
 
 
